@@ -1,0 +1,67 @@
+//go:build verif
+
+// Verification contracts for the lease routers (property C20; comment-only, read by /verif/govc).
+// This file contains no executable code.
+//
+// Convergence argument: etcd delivers every event with revision >= the one a watch is opened at, in order. The
+// routing table reflects revision R after a full read at R, or after the events of a watch response with header
+// revision R have been applied. If every watch is opened at (reflected revision + 1), no event is ever skipped, so
+// once changes stop the table equals etcd's content. The clauses below pin exactly that on the real code.
+
+package metadata
+
+//@ func (r *PartitionRouter) loadAll
+//@   ghost gResp *clientv3.GetResponse = nil
+//@   at Get#1 after set gResp = ret0
+//@   ensures [C20.p_load_returns_read_revision] err == nil ==> gResp != nil && result0 == gResp.Header.Revision
+//@   ensures [C20.p_failed_load_keeps_table] err != nil ==> r.routes == old(r.routes)
+//@   ensures [C20.p_load_installs_fresh_table] err == nil ==> r.routes != old(r.routes) && r.routes != nil
+
+//@ func NewPartitionRouter
+//@   nullable logger, client
+//@   ghost gRev int64 = 0
+//@   ghost gErr error = nil
+//@   at loadAll#1 after set gRev = ret0
+//@   at loadAll#1 after set gErr = ret1
+//@   at watch#1 before assert [C20.p_initial_watch_starts_after_initial_load] gErr == nil && arg1 == gRev
+
+//@ func (r *PartitionRouter) watch
+//@   ghost gApplied int64 = rev
+//@   ghost gOpt clientv3.OpOption = nil
+//@   loop 1 invariant rev == gApplied
+//@   loop 2 invariant rev == gApplied
+//@   at WithRev#1 before assert [C20.p_watch_resumes_right_after_reflected_revision] arg0 == int64(gApplied + 1)
+//@   at WithRev#1 after set gOpt = ret0
+//@   at Watch#1 before assert [C20.p_watch_uses_resume_option] exists i int :: 0 <= i && i < len(arg2) && arg2[i] == gOpt
+//@   at Unlock#1 after set gApplied = ite(resp.Header.Revision > gApplied, resp.Header.Revision, gApplied)
+//@   at loadAll#1 after set gApplied = ite(isNilIface(ret1), ret0, gApplied)
+//@   at mapupdate#1 before assert [C20.p_put_event_sets_owner_to_event_value] key == routeKey && value == string(ev.Kv.Value)
+//@   at delete#1 before assert [C20.p_delete_event_removes_that_route] arg1 == routeKey
+
+//@ func (r *GroupRouter) loadAll
+//@   ghost gResp *clientv3.GetResponse = nil
+//@   at Get#1 after set gResp = ret0
+//@   ensures [C20.g_load_returns_read_revision] err == nil ==> gResp != nil && result0 == gResp.Header.Revision
+//@   ensures [C20.g_failed_load_keeps_table] err != nil ==> r.routes == old(r.routes)
+//@   ensures [C20.g_load_installs_fresh_table] err == nil ==> r.routes != old(r.routes) && r.routes != nil
+
+//@ func NewGroupRouter
+//@   nullable logger, client
+//@   ghost gRev int64 = 0
+//@   ghost gErr error = nil
+//@   at loadAll#1 after set gRev = ret0
+//@   at loadAll#1 after set gErr = ret1
+//@   at watch#1 before assert [C20.g_initial_watch_starts_after_initial_load] gErr == nil && arg1 == gRev
+
+//@ func (r *GroupRouter) watch
+//@   ghost gApplied int64 = rev
+//@   ghost gOpt clientv3.OpOption = nil
+//@   loop 1 invariant rev == gApplied
+//@   loop 2 invariant rev == gApplied
+//@   at WithRev#1 before assert [C20.g_watch_resumes_right_after_reflected_revision] arg0 == int64(gApplied + 1)
+//@   at WithRev#1 after set gOpt = ret0
+//@   at Watch#1 before assert [C20.g_watch_uses_resume_option] exists i int :: 0 <= i && i < len(arg2) && arg2[i] == gOpt
+//@   at Unlock#1 after set gApplied = ite(resp.Header.Revision > gApplied, resp.Header.Revision, gApplied)
+//@   at loadAll#1 after set gApplied = ite(isNilIface(ret1), ret0, gApplied)
+//@   at mapupdate#1 before assert [C20.g_put_event_sets_owner_to_event_value] key == groupID && value == string(ev.Kv.Value)
+//@   at delete#1 before assert [C20.g_delete_event_removes_that_route] arg1 == groupID
